@@ -960,6 +960,70 @@ fn run_case(acc: &mut Acc, b: &Base, base_verdict: &Outcome, alts: &[Alt], origi
     }
 }
 
+/// The parts of a `BatchStarkProof` that are NOT serialized (`stark_common`: the prover's lookup
+/// contexts and preprocessed data) are prover-supplied all the same when a proof is verified in memory.
+/// A malicious prover strips the lookup contexts (no lookup argument is proven), which unties the tables,
+/// and proves a trace whose Public table contradicts its ALU table. The verifier must (1) reject it and
+/// (2) give the same verdict before and after a serialization round trip. `n` claimed values are tried.
+fn in_memory_parts_leg(n: usize, rng: &mut Rng) -> (Vec<Value>, usize) {
+    use p3_batch_stark::CommonData;
+    let mut out = vec![];
+    let mut evals = 0usize;
+    for case in 0..n {
+        let x = 1 + rng.below(1000);
+        let claimed = x + 10 + 1 + rng.below(1000); // != x + 10
+        let r = catch_unwind(AssertUnwindSafe(|| -> Option<(bool, bool)> {
+            let mut builder = CircuitBuilder::<BabyBear>::new();
+            let xi = builder.public_input();
+            let expected = builder.public_input();
+            let c5 = builder.define_const(BabyBear::from_u64(5));
+            let c2 = builder.define_const(BabyBear::from_u64(2));
+            let m = builder.mul(c5, c2);
+            let a = builder.add(xi, m);
+            let d = builder.sub(a, expected);
+            builder.assert_zero(d);
+            let circuit = builder.build().ok()?;
+            let cfg = config::baby_bear();
+            let (airs_degrees, prim, nonprim) =
+                get_airs_and_degrees_with_prep::<BabyBearConfig, _, 1>(&circuit, &TablePacking::default(), &[], &[], ConstraintProfile::Standard).ok()?;
+            let (airs, degs): (Vec<_>, Vec<usize>) = airs_degrees.into_iter().unzip();
+            let mut pd = ProverData::from_airs_and_degrees(&cfg, &airs, &degs);
+            pd.common.lookups = CommonData::<BabyBearConfig>::empty(airs.len()).lookups;
+            let cpd = CircuitProverData::new(pd, prim, nonprim);
+            let mut runner = circuit.runner();
+            runner.set_public_inputs(&[BabyBear::from_u64(x), BabyBear::from_u64(x + 10)]).ok()?;
+            let mut traces = runner.run().ok()?;
+            traces.public_trace.values[1] = BabyBear::from_u64(claimed);
+            let prover = BatchStarkProver::new(cfg);
+            let proof = prover.prove_all_tables(&traces, &cpd).ok()?;
+            let in_mem = prover.verify_all_tables::<BabyBear>(&proof).is_ok();
+            let bytes = postcard::to_allocvec(&proof).ok()?;
+            let back: BatchStarkProof<BabyBearConfig> = postcard::from_bytes(&bytes).ok()?;
+            let restored = prover.verify_all_tables::<BabyBear>(&back).is_ok();
+            Some((in_mem, restored))
+        }));
+        evals += 1;
+        let replay = json!({"what": "x + 5*2 == expected; prover data with emptied lookup contexts; Public table entry `expected` overwritten",
+                            "x": x, "claimed_expected": claimed, "case": case});
+        match r {
+            Ok(Some((in_mem, restored))) => {
+                if in_mem {
+                    out.push(json!({"property": "C16", "kind": "invalid-trace-accepted", "class": "accepts-invalid-trace:stripped-lookup-contexts",
+                        "detail": "a proof whose in-memory stark_common carries no lookup contexts, for a trace whose Public and ALU tables contradict each other, is accepted",
+                        "replay": replay.clone()}));
+                }
+                if in_mem != restored {
+                    out.push(json!({"property": "C16", "kind": "serialization-round-trip", "class": "serde:postcard:verdict-differs-in-memory",
+                        "detail": format!("in-memory accepted = {in_mem}, round-tripped accepted = {restored}"), "replay": replay}));
+                }
+            }
+            Ok(None) => {} // the malicious prover could not even produce a proof: nothing to judge
+            Err(_) => {}   // prover-side debug checks refuse to prove: fine
+        }
+    }
+    (out, evals)
+}
+
 pub fn main(args: &crate::Args) {
     let seed = args.u64("seed", 1);
     let out = args.str("out", "/tmp/p3r");
@@ -973,6 +1037,14 @@ pub fn main(args: &crate::Args) {
     let mut acc = Acc { cases: vec![], impl_: vec![], detail: vec![], hist: BTreeMap::new(), violations: vec![], samples: vec![], evals: 0, distinct: Default::default() };
     let mut serde_checks = 0usize;
     let mut corpus_reproduced: Vec<String> = vec![];
+
+    // ---- in-memory-only parts of the proof (not reached by metadata alterations of the serialized form)
+    if generate {
+        let (v, n) = in_memory_parts_leg(args.u64("inmem", 3) as usize, &mut rng);
+        acc.evals += n;
+        *acc.hist.entry("inmem.stripped-lookups.cases".into()).or_default() += n as u64;
+        acc.violations.extend(v);
+    }
 
     // ---- corpus / replay first
     if let Some(dir) = args.opt("corpus") {
